@@ -32,6 +32,22 @@ DurationsOK(R, plan) ==
                  THEN DurCheck(R, H, run.S, plan[i], Act(P, plan[i].a), ParEnv(Act(P, plan[i].a), plan[i]))
                  ELSE "T" : i \in DOMAIN plan})
 
+\* some durative step whose duration interval, evaluated in the state in which it starts, is empty
+\* (lo > hi, or lo = hi with an open side): no duration can be valid for it
+EmptyInterval(R, plan) ==
+   LET P  == R.P
+       Ev == Events(P, plan)
+       H  == SortT({e.t : e \in Ev})
+       run == RunFrom(R, Ev, H, 1, <<InitSt(R)>>)
+   IN run.ok /\ \E i \in DOMAIN plan :
+        LET a == Act(P, plan[i].a) IN
+        a.kind = "dur" /\
+        LET env == ParEnv(a, plan[i])
+            s  == run.S[Idx(H, TV(plan[i].t)) + 1]
+            lo == Eval(R, a.dur.lo, s, env)
+            hi == Eval(R, a.dur.hi, s, env)
+        IN ~IsU(lo) /\ ~IsU(hi) /\ (RLt(hi, lo) \/ (lo = hi /\ (a.dur.lopen \/ a.dur.ropen)))
+
 Clause(c, rec) ==
    LET sv == SeqVerdict(RQ(c), rec.pi) IN
    IF sv.v = "unspec" THEN "U"
@@ -40,7 +56,9 @@ Clause(c, rec) ==
    ELSE LET tv == TimeVerdict(RP(c), rec.tau) IN
         IF tv.v = "unspec" THEN "U"
         ELSE IF tv.v = "VALID" THEN ""
-        ELSE IF tv.why = "steps" /\ DurationsOK(RP(c), rec.tau) = "F" THEN "converted-plan-duration-outside-interval"
+        ELSE IF tv.why = "steps" /\ DurationsOK(RP(c), rec.tau) = "F"
+             THEN (IF EmptyInterval(RP(c), rec.tau) THEN "converted-plan-duration-interval-empty"
+                   ELSE "converted-plan-duration-outside-interval")
         ELSE "converted-plan-INVALID-" \o tv.why
 
 Judge == LET x == Clause(cid, Batch[cid].plans[pi]) IN
